@@ -1420,6 +1420,15 @@ def h_conv(env, t, maxlen=2):
         return unexpected(env, "conv.from_json-no-exception", v2)
     env.reach("conv.from_json-no-exception")
     env.check("conv.from_json(to_json(v))==v", jeq(env, t, v, v2), "py:ndjson:%s:roundtrip-differs" % tname_short(t), "from_json(to_json(v)) differs from v")
+    if t[0] == "union" and t[1][0] is None and not t[2]:
+        # portability (C03): the C++ writer renders the null case of a TAGGED nullable union as an object keyed by the
+        # case's tag ({"null": null}; generated adl_serializer: j = ordered_json{{"<tag>", monostate}}), the Python
+        # writer as a bare null: a reader must accept both spellings of the null case
+        for form, label in ((None, "bare-null"), ({"null": None}, "object-keyed-by-the-null-tag")):
+            ok, r = env.attempt(conv.from_json, form)
+            env.check("conv.tagged-nullable-union-reads-both-null-forms", AND(ok, r is None),
+                      "py:ndjson:tagged-nullable-union:%s-form-not-read-as-null" % label,
+                      "from_json(%r) must be the null case (got %s)" % (form, "exception " + type(r).__name__ if not ok else repr(r)))
 
 
 def tname_short(t):
